@@ -355,3 +355,32 @@ def fixed_trees():
 def fixed_cases():
     for d, root, files in fixed_trees():
         yield case_line({"max_depth": d, "root": root, "files": files, "flat": None}) + " -"
+
+
+# ------------------------------------------------------------------ small-scope enumeration
+
+ROOT_LINES = [b"$ORIGIN a.", b"$TTL 5", b"x 7 IN A 1.2.3.4", b" A 1.2.3.5", b"@ CH TXT t", b"$INCLUDE c", b"$INCLUDE c o."]
+CHILD_LINES = [b"$ORIGIN b.", b"$TTL 9", b"y 3 HS TXT u", b" TXT v", b"@ TXT w"]
+PRELUDE = b"$ORIGIN r.\n$TTL 1\nk IN TXT p\n"      # a complete context: origin, default TTL, previous owner / TTL / class
+
+
+def enum_trees():
+    """Every root of PRELUDE + 1..4 lines over ROOT_LINES that contains an $INCLUDE, with every included file of
+    0..2 lines over CHILD_LINES: all orders of context-setting and context-using lines around one
+    include boundary (and two inclusions of the same file under different contexts)."""
+    import itertools
+    children = [c for n in range(3) for c in itertools.product(CHILD_LINES, repeat=n)]
+    for n in range(1, 5):
+        for root in itertools.product(ROOT_LINES, repeat=n):
+            if not any(l.startswith(b"$INCLUDE") for l in root):
+                continue
+            for child in children:
+                yield (1, "z/root", {"z/root": PRELUDE + b"\n".join(root) + b"\n", "z/c": b"".join(l + b"\n" for l in child)})
+
+
+def enum_cases(rng, tier):
+    trees = list(enum_trees())
+    if tier == "quick":
+        trees = rng.sample(trees, 1500)
+    for d, root, files in trees:
+        yield case_line({"max_depth": d, "root": root, "files": files, "flat": None}) + " -"
